@@ -84,6 +84,7 @@ def check(run, model, tier):
     run.floor('registry stores in append', len(snodes), 1)
     tests = [t for t in g.nodes if t.kind == 'test' and isinstance(t.ast, ast.Compare) and isinstance(t.ast.ops[0], (ast.In, ast.NotIn))
              and isinstance(t.ast.comparators[0], ast.Name) and t.ast.comparators[0].id == selfn]
+    numbering_shape = []
     for s in snodes:
         guarded = False
         for t in tests:
@@ -93,13 +94,11 @@ def check(run, model, tier):
         run.inst('REG.numbering', append, 'store only when the name is absent', guarded,
                  '' if guarded else 'append stores a number for a name without first establishing that the name is absent: '
                  'an existing name is renumbered', node=s.ast, obligation=True)
-        v = s.ast.value
+        v = resolve_all(s.ast.value, local_defs(append.node))
         want = isinstance(v, ast.BinOp) and isinstance(v.op, ast.Add) and \
             ((isinstance(v.left, ast.Call) and norm(v.left) == 'len(%s)' % selfn and isinstance(v.right, ast.Constant) and v.right.value == 1) or
              (isinstance(v.right, ast.Call) and norm(v.right) == 'len(%s)' % selfn and isinstance(v.left, ast.Constant) and v.left.value == 1))
-        run.inst('REG.numbering', append, 'new number = len(self) + 1', want,
-                 '' if want else 'the number given to a new name is %s, not len(self)+1: numbers stop being position+1 / may collide' % norm(v),
-                 node=s.ast, obligation=True)
+        numbering_shape.append((s, want, v))
         key = s.ast.targets[0].slice
         run.inst('REG.numbering', append, 'stored under the requested name', isinstance(key, ast.Name) and key.id == namep,
                  'the store key is not the requested name', node=s.ast)
@@ -142,68 +141,153 @@ def check(run, model, tier):
     nfs = src.methods.get('name_for_signal')
     if nfs is None:
         raise AnalysisError('SignalSource.name_for_signal not found')
-    rets = [n for n in walk_shallow(nfs.node) if isinstance(n, ast.Return) and n.value is not None]
-    defs = local_defs(nfs.node)
-    txt = ' '.join(norm(resolve_all(r.value, defs), 400) for r in rets)
-    s0, p0 = nfs.params[0], nfs.params[1]
-    ok = ('list(%s.keys())[list(%s.values()).index(%s)]' % (s0, s0, p0)) in txt
-    if not ok:
-        # alternative: loop `for k, v in self.items(): if v == signal: return k`
-        ok = any(isinstance(n, ast.For) and norm(n.iter) in ('%s.items()' % s0, 'list(%s.items())' % s0) for n in walk_shallow(nfs.node)) and \
-            any(isinstance(n, ast.Compare) and p0 in norm(n) and isinstance(n.ops[0], ast.Eq) for n in walk_shallow(nfs.node))
-    run.inst('REG.inverse', nfs, 'name_for_signal inverts by position/equality', ok,
-             '' if ok else 'name_for_signal no longer returns the key stored with the given number', obligation=True)
     iis = src.methods.get('is_inner_signal')
     if iis is None:
         raise AnalysisError('SignalSource.is_inner_signal not found')
-    slices = [n for f in [iis] + list(iis.nested.values()) for n in walk_shallow(f.node) if isinstance(n, ast.Subscript) and isinstance(n.slice, ast.Slice)]
-    ok = len(slices) >= 1 and all(
-        (sl.slice.lower is None or (isinstance(sl.slice.lower, ast.Constant) and sl.slice.lower.value == 0)) and
-        sl.slice.upper is not None and dotted(sl.slice.upper) == iis.params[0] + '.highest_inner_signal' and
-        norm(sl.value) == 'list(%s.values())' % iis.params[0] for sl in slices)
-    run.inst('REG.inverse', iis, 'inner signals = values()[0:highest_inner_signal]', ok,
-             '' if ok else 'is_inner_signal does not test membership in exactly the built-in prefix of the registry', obligation=True)
-    # ---- the two readers are pure functions of the registry: evaluate them on small registries (k built-in names first, then user names)
+    # ---- the two readers are pure functions of the registry: evaluate them on small registries.  Two families of worlds:
+    #   (a) built by the code itself: __init__'s statements and then append() are evaluated (stores allowed into the scratch world), so any derived
+    #       state the class keeps (a reverse index, a counter) is whatever the class's own writers produce
+    #   (b) hand-built registries with 1 or 3 built-in names (only usable when the readers need nothing but the mapping and highest_inner_signal)
     run.rule('REG.readers-eval', 'is_inner_signal / name_for_signal evaluated over small registries: inner == among the first highest_inner_signal entries; name_for_signal inverts the binding')
+    run.rule('REG.numbering-eval', '__init__ then append() evaluated on a scratch registry: numbers are 1..n in registration order, an existing name keeps its number')
     from sa import pureeval
     import collections as _c
 
     class _Reg(_c.OrderedDict):
         pass
-    bad_i, bad_n, n_eval = None, None, 0
+    methods = {k: f.node for k, f in src.methods.items() if k not in ('__init__', '__getattr__')}
+    lock_attrs = set()
+
+    def built_world(user_names):
+        reg = _Reg()
+        env = {init.params[0]: reg, '__mutable__': True, '__methods__': methods}
+        for st in init.node.body:
+            if isinstance(st, ast.Expr) and isinstance(st.value, ast.Constant):
+                continue
+            if isinstance(st, ast.Expr) and isinstance(st.value, ast.Call) and norm(st.value.func).startswith('super('):
+                continue
+            if isinstance(st, ast.Assign) and isinstance(st.value, ast.Call) and norm(st.value.func).split('.')[-1] in LOCK_CTORS:
+                for t in st.targets:
+                    d = dotted(t)
+                    if d and d.startswith(init.params[0] + '.'):
+                        setattr(reg, d.split('.', 1)[1], pureeval.Obj())
+                        lock_attrs.add(d.split('.', 1)[1])
+                continue
+            pureeval.run_body([st], env)
+        for k, v in src.consts.items():
+            if isinstance(v, ast.Call) and norm(v.func).split('.')[-1] in LOCK_CTORS:
+                setattr(reg, k, pureeval.Obj())
+        for nm in user_names:
+            pureeval.call(append.node, [reg, nm], mutable=True, methods=methods)
+        return reg
+    eval_numbering = None
+    worlds = []
     try:
-        for n_inner in (1, 3):
-            for n_user in (0, 2):
-                reg = _Reg()
-                for i in range(n_inner):
-                    reg['INNER_%d' % i] = i + 1
-                for i in range(n_user):
-                    reg['USER_%d' % i] = n_inner + i + 1
-                reg.highest_inner_signal = n_inner
-                probes = [(k, v <= n_inner) for k, v in reg.items()] + [(v, v <= n_inner) for v in reg.values()] + [('NEVER_SEEN', False), (n_inner + n_user + 5, False), (0, False), (None, False)]
-                for arg, want in probes:
-                    n_eval += 1
-                    try:
-                        got = pureeval.call(iis.node, [reg, arg], strict_locals=True)
-                    except pureeval.Raised as ex:
-                        got = 'raises ' + ex.what
-                    if got is not want and bad_i is None:
-                        bad_i = (dict(reg), n_inner, arg, want, got)
-                for k, v in reg.items():
-                    n_eval += 1
-                    try:
-                        got = pureeval.call(nfs.node, [reg, v], strict_locals=True)
-                    except pureeval.Raised as ex:
-                        got = 'raises ' + ex.what
-                    if got != k and bad_n is None:
-                        bad_n = (dict(reg), v, k, got)
-        run.inst('REG.readers-eval', iis, 'is_inner_signal(x) is True exactly for the built-in names and numbers (%d evaluations)' % n_eval, bad_i is None,
+        for users in ([], ['USER_0', 'USER_1'], ['USER_0', 'USER_1', 'USER_0', 'ENTRY_SIGNAL', 'USER_2']):
+            reg = built_world(users)
+            want_names = list(names)
+            for u in users:
+                if u not in want_names:
+                    want_names.append(u)
+            got = list(reg.items())
+            okw = got == [(nm, i + 1) for i, nm in enumerate(want_names)]
+            if not okw and eval_numbering is None:
+                eval_numbering = 'after registering %s the registry reads %s' % (users, got[len(names) - 1:] if len(got) >= len(names) else got)
+            his_v = vars(reg).get('highest_inner_signal')
+            if his_v != len(names) and eval_numbering is None:
+                eval_numbering = 'highest_inner_signal is %r after construction and %d registrations, expected the number of built-ins %d' % (his_v, len(users), len(names))
+            worlds.append((reg, len(names)))
+        run.inst('REG.numbering-eval', append, 'numbers are position+1 and stable over 3 registration sequences (incl. repeated and built-in names)', eval_numbering is None,
+                 '' if eval_numbering is None else 'the numbering is not "each new name gets size+1, an existing name keeps its number": ' + eval_numbering, obligation=True)
+    except AnalysisError as ex_:
+        run.note('SignalSource.__init__/append are outside the evaluator\'s fragment (%s): numbering decided by the structural rules only' % ex_)
+        worlds = []
+    except pureeval.Raised as ex_:
+        run.inst('REG.numbering-eval', append, 'constructor and append complete on a scratch registry', False,
+                 'evaluating SignalSource.__init__ and append() raises %s' % ex_.what, obligation=True)
+        worlds = []
+    built = bool(worlds)
+    for s_, want_, v_ in numbering_shape:
+        if built:
+            continue        # decided by REG.numbering-eval on the class's own code
+        run.inst('REG.numbering', append, 'new number = len(self) + 1', want_,
+                 '' if want_ else 'the number given to a new name is %s, not len(self)+1: numbers stop being position+1 / may collide' % norm(v_),
+                 node=s_.ast, obligation=True)
+    for n_inner in (1, 3):
+        for n_user in (0, 2):
+            reg = _Reg()
+            for i in range(n_inner):
+                reg['INNER_%d' % i] = i + 1
+            for i in range(n_user):
+                reg['USER_%d' % i] = n_inner + i + 1
+            reg.highest_inner_signal = n_inner
+            for la in lock_attrs:
+                setattr(reg, la, pureeval.Obj())
+            worlds.append((reg, n_inner))
+    bad_i, bad_n, n_eval, n_worlds, skipped = None, None, 0, 0, None
+    decided_i = decided_n = False
+    for wi, (reg, n_inner) in enumerate(worlds):
+        hand = not built or wi >= len(worlds) - 4
+        total = len(reg)
+        probes = [(k, v <= n_inner) for k, v in reg.items()] + [(v, v <= n_inner) for v in reg.values()] + [('NEVER_SEEN', False), (total + 5, False), (0, False), (None, False)]
+        try:
+            for arg, want in probes:
+                try:
+                    got = pureeval.call(iis.node, [reg, arg], strict_locals=True, methods=methods)
+                except pureeval.Raised as ex:
+                    got = 'raises ' + ex.what
+                n_eval += 1
+                if got is not want and bad_i is None:
+                    bad_i = (dict(reg), n_inner, arg, want, got)
+            decided_i = True
+        except AnalysisError as ex_:
+            if not hand or not built:
+                skipped = str(ex_)
+        try:
+            for k, v in reg.items():
+                try:
+                    got = pureeval.call(nfs.node, [reg, v], strict_locals=True, methods=methods)
+                except pureeval.Raised as ex:
+                    got = 'raises ' + ex.what
+                n_eval += 1
+                if got != k and bad_n is None:
+                    bad_n = (dict(reg), v, k, got)
+            decided_n = True
+        except AnalysisError as ex_:
+            if not hand or not built:
+                skipped = str(ex_)
+        n_worlds += 1
+    if decided_i:
+        run.inst('REG.readers-eval', iis, 'is_inner_signal(x) is True exactly for the built-in names and numbers', bad_i is None,
                  '' if bad_i is None else ('with the registry %s (%d built-in) is_inner_signal(%r) answers %r, expected %r: a user signal is treated as an inner signal (no spy hook line, no trace '
                                            'record) or a built-in one as a user signal' % (bad_i[0], bad_i[1], bad_i[2], bad_i[4], bad_i[3])), obligation=True)
+    if decided_n:
         run.inst('REG.readers-eval', nfs, 'name_for_signal(number) is the name registered under that number', bad_n is None,
                  '' if bad_n is None else 'with the registry %s name_for_signal(%r) answers %r, expected %r' % (bad_n[0], bad_n[1], bad_n[3], bad_n[2]), obligation=True)
-    except AnalysisError as ex_:
-        run.note('the registry readers are outside the pure fragment of the evaluator (%s): decided by the shape rules only' % ex_)
+    run.note('registry readers evaluated %d times over %d registries (%s)' % (n_eval, n_worlds, 'built by the evaluated constructor/append and hand-built' if built else 'hand-built only'))
+    run.floor('reader evaluations', n_eval, 40 if (decided_i and decided_n) else 0)
+    # structural fall-back for a reader the evaluator cannot follow: the accepted idioms, anything else is an unknown idiom (refusal, not a finding)
+    if not decided_n:
+        rets = [n for n in walk_shallow(nfs.node) if isinstance(n, ast.Return) and n.value is not None]
+        defs = local_defs(nfs.node)
+        txt = ' '.join(norm(resolve_all(r.value, defs), 400) for r in rets)
+        s0, p0 = nfs.params[0], nfs.params[1]
+        ok = ('list(%s.keys())[list(%s.values()).index(%s)]' % (s0, s0, p0)) in txt
+        if not ok:
+            ok = any(isinstance(n, ast.For) and norm(n.iter) in ('%s.items()' % s0, 'list(%s.items())' % s0) for n in walk_shallow(nfs.node)) and \
+                any(isinstance(n, ast.Compare) and p0 in norm(n) and isinstance(n.ops[0], ast.Eq) for n in walk_shallow(nfs.node))
+        if not ok:
+            raise AnalysisError('name_for_signal is neither evaluable (%s) nor one of the known inversion idioms' % skipped)
+        run.inst('REG.inverse', nfs, 'name_for_signal inverts by position/equality (structural; evaluator refused: %s)' % skipped, True, '', obligation=True)
+    if not decided_i:
+        slices = [n for f in [iis] + list(iis.nested.values()) for n in walk_shallow(f.node) if isinstance(n, ast.Subscript) and isinstance(n.slice, ast.Slice)]
+        ok = len(slices) >= 1 and all(
+            (sl.slice.lower is None or (isinstance(sl.slice.lower, ast.Constant) and sl.slice.lower.value == 0)) and
+            sl.slice.upper is not None and dotted(sl.slice.upper) == iis.params[0] + '.highest_inner_signal' and
+            norm(sl.value) == 'list(%s.values())' % iis.params[0] for sl in slices)
+        if not ok:
+            raise AnalysisError('is_inner_signal is neither evaluable (%s) nor the known prefix-membership idiom' % skipped)
+        run.inst('REG.inverse', iis, 'inner signals = values()[0:highest_inner_signal] (structural; evaluator refused: %s)' % skipped, True, '', obligation=True)
     ga = src.methods.get('__getattr__')
     if ga is not None:
         ok = any(isinstance(c.func, ast.Attribute) and c.func.attr == 'append' and dotted(c.func.value) == ga.params[0] for c in shallow_calls(ga.node))
@@ -242,7 +326,9 @@ def check(run, model, tier):
                 ok = bool(loops) and any('signals.items()' in norm(h.stmt.iter) for h in loops)
                 eqs = [t for t in g2.nodes if t.kind == 'test' and isinstance(t.ast, ast.Compare) and isinstance(t.ast.ops[0], ast.Eq) and sigp in norm(t.ast)
                        and guarded_by_edge(g2, n, t, 'true')]
-                run.inst('REG.inverse', ei, 'number branch: name = key whose value equals the number', ok and bool(eqs),
+                via_reader = isinstance(n.ast.value, ast.Call) and norm(n.ast.value.func) == 'signals.name_for_signal' and len(n.ast.value.args) == 1 \
+                    and isinstance(n.ast.value.args[0], ast.Name) and n.ast.value.args[0].id == sigp
+                run.inst('REG.inverse', ei, 'number branch: name = key whose value equals the number', (ok and bool(eqs)) or via_reader,
                          'the event name is not the registry key stored with that number', node=n.ast, obligation=True)
             else:
                 ok = isinstance(n.ast.value, ast.Name) and n.ast.value.id == sigp
@@ -271,10 +357,63 @@ def check(run, model, tier):
                  '' if ok else ('SignalSource.append tests `name in self` and stores `len(self)+1` without a lock around both: two threads registering '
                                 'different names can read the same size and give both names the same number (name_for_signal then inverts only one)'),
                  node=s.ast, obligation=True)
+    # ---- publication order: readers take no lock, so the store into the mapping itself is the moment a new number becomes visible; any other state
+    # of the registry that append maintains (a reverse index, a counter) and that a reader consults without the lock must be complete before it
+    run.rule('REG.publication', 'append writes every derived piece of registry state before it publishes the name->number binding (or every reader of that state holds the lock)')
+    MUT = {'append', 'extend', 'insert', 'update', 'setdefault', '__setitem__', 'add', 'pop', 'remove', 'clear'}
+    secondary = {}
+    for n in g.nodes:
+        if n.kind != 'stmt':
+            continue
+        attrs = set()
+        if isinstance(n.ast, (ast.Assign, ast.AugAssign)):
+            for t in (n.ast.targets if isinstance(n.ast, ast.Assign) else [n.ast.target]):
+                base = t.value if isinstance(t, ast.Subscript) else t
+                d = dotted(base)
+                if d and d.startswith(selfn + '.') and d.count('.') == 1:
+                    attrs.add(d.split('.')[1])
+        for c in n.calls():
+            if isinstance(c.func, ast.Attribute) and c.func.attr in MUT:
+                d = dotted(c.func.value)
+                if d and d.startswith(selfn + '.') and d.count('.') == 1:
+                    attrs.add(d.split('.')[1])
+        for a in attrs - locks:
+            secondary.setdefault(a, []).append(n)
+    prim = list(snodes) + [n for n in g.nodes if n.kind == 'stmt' and any(isinstance(c.func, ast.Attribute) and c.func.attr in ('update', 'setdefault', '__setitem__')
+                                                                          and dotted(c.func.value) == selfn for c in n.calls())]
+    n_pub = 0
+    for a, nodes_ in sorted(secondary.items()):
+        late = [n for n in nodes_ if any(p_ is not n and g.exists_path(p_, n) for p_ in prim)]
+        if not late:
+            n_pub += 1
+            run.inst('REG.publication', append, 'derived state %s is written before the binding is published' % a, True, '', node=nodes_[0].ast, obligation=True)
+            continue
+        readers = []
+        for f in model.all_funcs():
+            if f in (init, append):
+                continue
+            bases = {'signals'} | ({f.params[0]} if f.owner_class is src and f.params else set())
+            pf = None
+            for x in walk_shallow(f.node):
+                if isinstance(x, ast.Attribute) and x.attr == a and isinstance(x.value, ast.Name) and x.value.id in bases:
+                    pf = pf or parents(f.node)
+                    if with_lock_of(x, pf, f.node, locks) is None:
+                        readers.append((f, x))
+        n_pub += 1
+        if not readers:
+            run.inst('REG.publication', append, 'derived state %s is written after the binding, but every reader of it holds the registry lock' % a, True, '', node=late[0].ast, obligation=True)
+        for f, x in readers:
+            run.inst('REG.publication', f, 'reads %s without the registry lock' % a, False,
+                     ('append publishes the name->number binding (%s) and only afterwards writes %s (%s); %s reads %s without the registry lock, so a thread that '
+                      'has just obtained the new number (signals.NAME / signals[name]) finds %s incomplete: the lookup raises or answers for the wrong signal'
+                      % (prim[0].text() if prim else '?', a, late[0].text(), f.qualname, a, a)), node=x, obligation=True)
+    run.note('derived registry state maintained by append: %s' % (sorted(secondary) or 'none'))
     # Python-level iteration over the live registry
     n_scans = 0
     for f in model.all_funcs():
         pf = None
+        if f is init:
+            continue        # the registry under construction is not yet visible to another thread
         for n in walk_shallow(f.node):
             iters = []
             if isinstance(n, (ast.For, ast.comprehension)):
